@@ -55,5 +55,37 @@ CHECKS["C17"] = {
     + [H("u_builder_gen::" + n, "generated: every one- and two-call sequence over the 20-operation alphabet, all probes", "concrete sequence; data symbolic", timeout_s=400) for n in _gen_builder_names()],
 }
 
+_CHAN_STEP = [H("u_chan::chan_step_cap%d" % c, "ONE real SenderChannel::send(x) from an arbitrary queue (symbolic length 0..=cap, symbolic items incl. the Exit marker) under a symbolic policy; content, return value, dropped-counter delta and primitive used vs the model; a blocked BlockOnFull send is served by a consumer taking the head; then FIFO drain", "capacity %d, unwind 6" % c, timeout_s=400) for c in (1, 2)]
+_CHAN_STEP3 = [H("u_chan::chan_step_cap3", "same, capacity 3", "capacity 3", timeout_s=400)]
+_CHAN_BURST = [H("u_chan::chan_burst_%s_cap%d" % (p, c), "burst of cap+2 real sends without consumer (%s): survivors, order, Ok/Err, dropped counter, queue bound" % p, "capacity %d, symbolic actions" % c, timeout_s=300) for p in ("oldest", "latest") for c in (1, 2)]
+_CHAN_BURST3 = [H("u_chan::chan_burst_%s_cap3" % p, "burst, capacity 3 (%s)" % p, "capacity 3", timeout_s=300) for p in ("oldest", "latest")]
+_CHAN_RACE = [H("u_chan::chan_race_oldest_cap1", "DropOldest send on a full queue with a consumer recv placed at a symbolic scheduling point inside the send (before / between try_send, try_recv, try_send): conservation, order of survivors, never blocks", "capacity 1, 4 placements", timeout_s=300),
+              H("u_chan::chan_race_oldest_cap2", "same, capacity 2", "capacity 2", timeout_s=300),
+              H("u_chan::chan_race_latest_cap2", "DropLatest send racing the consumer: Err iff discarded and counted", "capacity 2", timeout_s=300)]
+_CHAN_RACE3 = [H("u_chan::chan_race_oldest_cap3", "same, capacity 3", "capacity 3", timeout_s=300)]
+_CHAN_TWIN = [H("u_chan::twin_u_chan", "vacuity twin: wrong oracles for C02/C05/C06 must each be refuted", "", role="twin", timeout_s=300)]
+
+CHECKS["C06"] = {
+    "bounds": "capacity 1..2 (quick) / 1..3 (thorough); one send from an arbitrary queue; bursts of capacity+2; one consumer step at any of the scheduling points inside a send; items symbolic (Action(v) or Exit)",
+    "outside": "which action is hit under concurrent consumption (unspecified by the property); more than one consumer step inside one send; crossbeam's internals (modelled)",
+    "assumptions": ["context switches only at channel operations (each crossbeam operation is linearizable)"],
+    "quick": _CHAN_STEP + _CHAN_BURST + _CHAN_RACE + _CHAN_TWIN,
+    "thorough": _CHAN_STEP3 + _CHAN_BURST3 + _CHAN_RACE3,
+}
+CHECKS["C05"] = {
+    "bounds": "capacity 1..2 (quick) / 1..3 (thorough); one send from an arbitrary queue incl. the full queue served by one consumer step",
+    "outside": "fairness / latency of the wake-up ('as soon as' is checked as: the send completes after exactly one consumer step); crossbeam's own bound (modelled)",
+    "assumptions": [],
+    "quick": _CHAN_STEP + _CHAN_TWIN,
+    "thorough": _CHAN_STEP3,
+}
+CHECKS["C02"] = {
+    "bounds": "capacity 1..2 (quick) / 1..3 (thorough); FIFO of one send from an arbitrary queue under every policy; order of survivors with a racing consumer",
+    "outside": "ordering inside crossbeam (modelled as a linearizable FIFO)",
+    "assumptions": [],
+    "quick": _CHAN_STEP + _CHAN_RACE + _CHAN_TWIN,
+    "thorough": _CHAN_STEP3 + _CHAN_RACE3,
+}
+
 HOOK_COMMITS = ["da8b80e", "8cd617e"]
 NOT_APPLICABLE = {}
